@@ -1,7 +1,10 @@
 //! `RwLock` facade over `loom::sync::RwLock` (cargo feature `verif-loom`), so
 //! that a controlled scheduler sees every access to a mutable cell.
 use loom::sync::atomic::{AtomicUsize, Ordering};
-use std::sync::{Arc, LockResult, Mutex};
+use loom::thread::ThreadId;
+use std::collections::{HashMap, HashSet};
+use std::ops::{Deref, DerefMut};
+use std::sync::{Arc, LockResult, Mutex, PoisonError};
 
 /// A variable every cell access also updates, when the harness installs one: accesses to
 /// *different* cells then conflict as far as the scheduler can tell, so it explores all their
@@ -21,22 +24,153 @@ fn touch_world() {
     }
 }
 
+/// What the threads of one execution did with the cell locks, as far as loom's `RwLock`
+/// does not model it: std's lock prefers writers, so a thread that takes a read lock it
+/// already holds deadlocks when another thread asks for the write lock in between.
+#[derive(Default)]
+struct Book {
+    /// read locks held: (thread, lock) -> how many
+    held: HashMap<(ThreadId, usize), usize>,
+    /// (thread, lock): the thread took the lock (read or write) while it already held it
+    recursive: HashSet<(ThreadId, usize)>,
+    /// lock -> threads that asked for the write lock
+    writers: HashMap<usize, HashSet<ThreadId>>,
+}
+
+static BOOK: Mutex<Option<Book>> = Mutex::new(None);
+
+/// Starts the bookkeeping of one execution.
+pub fn begin_lock_book() {
+    *BOOK.lock().unwrap() = Some(Book::default());
+}
+
+/// Ends it: the number of (thread, lock) pairs where the thread re-took a lock it was
+/// holding while a different thread writes to the same lock in this execution.
+pub fn end_lock_book() -> usize {
+    let Some(book) = BOOK.lock().unwrap().take() else {
+        return 0;
+    };
+    book.recursive
+        .iter()
+        .filter(|(thread, lock)| {
+            book.writers
+                .get(lock)
+                .is_some_and(|writers| writers.iter().any(|writer| writer != thread))
+        })
+        .count()
+}
+
+/// the current loom thread while a book is open (outside it nothing is recorded)
+fn booked_thread() -> Option<ThreadId> {
+    let open = BOOK.lock().unwrap().is_some();
+    open.then(|| loom::thread::current().id())
+}
+
+fn note_acquire(thread: Option<ThreadId>, lock: usize, write: bool) {
+    let Some(thread) = thread else { return };
+    if let Some(book) = BOOK.lock().unwrap().as_mut() {
+        let held = book.held.get(&(thread, lock)).copied().unwrap_or(0);
+        if held > 0 {
+            book.recursive.insert((thread, lock));
+        }
+        if write {
+            book.writers.entry(lock).or_default().insert(thread);
+        }
+        *book.held.entry((thread, lock)).or_insert(0) += 1;
+    }
+}
+
+fn note_release(thread: Option<ThreadId>, lock: usize) {
+    let Some(thread) = thread else { return };
+    if let Some(book) = BOOK.lock().unwrap().as_mut() {
+        if let Some(count) = book.held.get_mut(&(thread, lock)) {
+            *count = count.saturating_sub(1);
+        }
+    }
+}
+
 #[derive(Debug)]
 pub struct RwLock<T>(loom::sync::RwLock<T>);
+
+pub struct ReadGuard<'a, T> {
+    inner: loom::sync::RwLockReadGuard<'a, T>,
+    thread: Option<ThreadId>,
+    lock: usize,
+}
+
+pub struct WriteGuard<'a, T> {
+    inner: loom::sync::RwLockWriteGuard<'a, T>,
+    thread: Option<ThreadId>,
+    lock: usize,
+}
+
+impl<T> Deref for ReadGuard<'_, T> {
+    type Target = T;
+    fn deref(&self) -> &T {
+        &self.inner
+    }
+}
+
+impl<T> Deref for WriteGuard<'_, T> {
+    type Target = T;
+    fn deref(&self) -> &T {
+        &self.inner
+    }
+}
+
+impl<T> DerefMut for WriteGuard<'_, T> {
+    fn deref_mut(&mut self) -> &mut T {
+        &mut self.inner
+    }
+}
+
+impl<T> Drop for ReadGuard<'_, T> {
+    fn drop(&mut self) {
+        note_release(self.thread, self.lock);
+    }
+}
+
+impl<T> Drop for WriteGuard<'_, T> {
+    fn drop(&mut self) {
+        note_release(self.thread, self.lock);
+    }
+}
 
 impl<T> RwLock<T> {
     pub fn new(value: T) -> Self {
         Self(loom::sync::RwLock::new(value))
     }
 
-    pub fn read(&self) -> LockResult<loom::sync::RwLockReadGuard<'_, T>> {
-        touch_world();
-        self.0.read()
+    fn key(&self) -> usize {
+        std::ptr::from_ref(self) as usize
     }
 
-    pub fn write(&self) -> LockResult<loom::sync::RwLockWriteGuard<'_, T>> {
+    pub fn read(&self) -> LockResult<ReadGuard<'_, T>> {
         touch_world();
-        self.0.write()
+        let (thread, lock) = (booked_thread(), self.key());
+        note_acquire(thread, lock, false);
+        match self.0.read() {
+            Ok(inner) => Ok(ReadGuard { inner, thread, lock }),
+            Err(poisoned) => Err(PoisonError::new(ReadGuard {
+                inner: poisoned.into_inner(),
+                thread,
+                lock,
+            })),
+        }
+    }
+
+    pub fn write(&self) -> LockResult<WriteGuard<'_, T>> {
+        touch_world();
+        let (thread, lock) = (booked_thread(), self.key());
+        note_acquire(thread, lock, true);
+        match self.0.write() {
+            Ok(inner) => Ok(WriteGuard { inner, thread, lock }),
+            Err(poisoned) => Err(PoisonError::new(WriteGuard {
+                inner: poisoned.into_inner(),
+                thread,
+                lock,
+            })),
+        }
     }
 }
 
